@@ -115,6 +115,22 @@ class Runner:
             ex.meas_script = []
         return out
 
+    def parity_history(self, nd, psi, calls):
+        """k parity_meas calls on one connection, EACH FLUSHED AS ITS OWN SUBROUTINE; the outcome
+        handles are read when `read_now` says so and ALL of them again at the very end
+        (collect-then-use).  calls: [(bases, neg, read_now)]."""
+        ctrl, conn, ex, qs, pos = self.start(nd, psi)
+        handles, early = [], []
+        for bases, neg, read_now in calls:
+            m = self.parity_meas(qs, ("-" if neg else "") + bases)
+            conn.flush()
+            handles.append(m)
+            early.append(int(m) if read_now else None)
+        late = [int(m) for m in handles]
+        live = [p for p in ex._qubit_unit_modules[conn.app_id] if p is not None]
+        return dict(early=early, late=late, post=data_state(ex, pos), clean=sorted(live) == sorted(pos),
+                    n_subroutines=len([1 for _ in calls]))
+
     def state_prep(self, phi, theta):
         ctrl, conn, ex, qs, pos = self.start(1, [1, 0])
         self.set_qubit_state(qs[0], phi, theta)
@@ -262,6 +278,57 @@ def case_parity_seq(ctx, R, nd, psi, calls):
     return True
 
 
+EIG = {("Z", 0): [1, 0], ("Z", 1): [0, 1],
+       ("X", 0): [R2 := math.sqrt(0.5), R2], ("X", 1): [R2, -R2],
+       ("Y", 0): [R2, 1j * R2], ("Y", 1): [R2, -1j * R2]}
+
+
+def product_eigenstate(qubits):
+    """qubits: [(letter, bit)]: qubit i is the eigenstate of Pauli `letter` with eigenvalue (-1)^bit"""
+    v = np.array([1], dtype=complex)
+    for letter, bit in qubits:
+        v = np.kron(v, np.array(EIG[(letter, bit)], dtype=complex))
+    return v
+
+
+def case_parity_history(ctx, R, qubits, calls):
+    """Collect-then-read: every call is its own subroutine, every handle is read (again) after the last
+    flush.  The input is a product of Pauli eigenstates and every string only uses, per qubit, I or that
+    qubit's Pauli, so each outcome is CERTAIN: xor of the eigenvalue bits of the qubits it touches, xor sign;
+    the state is unchanged."""
+    nd = len(qubits)
+    psi = product_eigenstate(qubits)
+    res = R.parity_history(nd, psi, calls)
+    want = []
+    for bases, neg, _ in calls:
+        r = int(neg)
+        for (letter, bit), c in zip(qubits, bases):
+            if c != "I":
+                assert c == letter
+                r ^= bit
+        want.append(r)
+    why = ""
+    for k, (w, e, l) in enumerate(zip(want, res["early"], res["late"])):
+        if e is not None and e != w:
+            why = f"call {k + 1} ({'-' if calls[k][1] else ''}{calls[k][0]}): outcome read right after its flush is {e}, the parity is {w}"
+            break
+        if l != w:
+            why = (f"call {k + 1} ({'-' if calls[k][1] else ''}{calls[k][0]}): its outcome handle read after the last flush gives {l}, "
+                   f"the parity is {w}" + (f" (it read {e} right after its own flush)" if e is not None else ""))
+            break
+    if not why and dist_up_to_phase(res["post"], psi) > 1e-7:
+        why = "the eigenstate was disturbed"
+    if not why and not res["clean"]:
+        why = "after the history more than the data qubits are allocated on the controller"
+    if why:
+        ctx.violation("parity_meas history " + " | ".join(("-" if n else "") + b for b, n, _ in calls) + ": " + why,
+                      dict(kind="parity_history", qubits=[list(q) for q in qubits], calls=[list(c) for c in calls],
+                           expected=want, read_early=res["early"], read_at_end=res["late"]),
+                      key="C20:parity_meas:history")
+        return False
+    return True
+
+
 def angle_err(emitted, angle):
     """circular distance between the exactly emitted angle (Fraction, units of pi) and the requested one"""
     x = (float(emitted) * math.pi - angle) % (2 * math.pi)
@@ -308,7 +375,9 @@ def run(ctx):
                 "Pauli strings of length 1..3 x input states (basis + Haar-like random) x both forced physical outcomes "
                 "(skipped when its probability is 0); sequences of 2-3 parity_meas calls on one connection (first always "
                 "ancilla-based, same and different strings) x every vector of forced outcomes, with the post-condition that "
-                "only the data qubits stay allocated after each call; set_qubit_state: grid + random (phi, theta) incl. "
+                "only the data qubits stay allocated after each call; collect-then-read histories (2-4 calls, each its own "
+                "subroutine, handles read after the last flush / immediately / mixed) on products of Pauli eigenstates so "
+                "that every outcome is certain; set_qubit_state: grid + random (phi, theta) incl. "
                 "negative and > 2 pi + adversarial angles just below k*pi/2^j and 2*pi, each rotation within 1e-4 rad; every case runs real SDK -> builder -> bytes -> deserialize -> Executor subclass with a numpy state "
                 "vector and is compared (1e-9) with the exact Coq model and with the documented operator; non-trivial = "
                 "input not an eigenstate-free trivial case (identity string) ; distinct = distinct (kind, string, sign, "
@@ -352,7 +421,7 @@ def run(ctx):
     rng = ctx.rng
     thorough = ctx.tier != "quick"
     stats = {"toffoli": 0, "t_inverse": 0, "parity": 0, "parity_skipped_zero_prob": 0, "parity_seq": 0,
-             "parity_seq_skipped_zero_prob": 0, "state_prep": 0, "state_prep_adversarial": 0, "raised": 0}
+             "parity_seq_skipped_zero_prob": 0, "parity_history": 0, "state_prep": 0, "state_prep_adversarial": 0, "raised": 0}
 
     def guarded(kind, replay, fn):
         """a toolbox call that raises on a fresh connection is itself a failure with a concrete input"""
@@ -441,6 +510,32 @@ def run(ctx):
             if out is not None:
                 ctx.note_case(("parity_seq", tuple(calls), i))
                 stats["parity_seq"] += 1
+    # --- histories: several parity measurements flushed as SEPARATE subroutines, handles read late
+    for i in range(300 if thorough else 50):
+        nd = rng.choice([1, 2, 3, 3])
+        qubits = [(rng.choice("XYZ"), rng.randrange(2)) for _ in range(nd)]
+        k = rng.choice([2, 3, 3, 4])
+        mode = i % 3                          # 0: read only at the end; 1: read every one at once too; 2: mixed
+        calls, wants = [], []
+        for j in range(k):
+            while True:
+                bases = "".join(rng.choice(["I", q[0]]) for q in qubits)
+                if i % 7 == 6 or any(c != "I" for c in bases):
+                    break
+            neg = rng.random() < 0.4
+            w = int(neg)
+            for (letter, bit), c in zip(qubits, bases):
+                w ^= bit if c != "I" else 0
+            if j == k - 1 and len(set(wants + [w])) == 1:
+                neg = not neg                 # make sure the expected outcomes of a history are not all equal
+                w ^= 1
+            wants.append(w)
+            calls.append((bases, neg, mode == 1 or (mode == 2 and rng.random() < 0.5)))
+        out = guarded("parity_meas", dict(kind="parity_history", qubits=[list(q) for q in qubits], calls=[list(c) for c in calls]),
+                      lambda: case_parity_history(ctx, R, qubits, calls))
+        if out is not None:
+            ctx.note_case(("parity_history", tuple(qubits), tuple(calls)))
+            stats["parity_history"] += 1
     # --- state preparation
     grid = [0.0, math.pi / 2, math.pi, 3 * math.pi / 2, math.pi / 4, 1e-3, 2 * math.pi - 1e-3]
     cases = [(p, t) for p in grid for t in grid] if thorough else [(p, t) for p in grid[:4] for t in grid[:4]]
@@ -522,6 +617,8 @@ def replay(ctx, path):
             okd = case_parity_seq(ctx, R, rec["nd"], vec(rec["psi"]), [tuple(c) for c in rec["calls"]])
         except sv_pipeline.ImpossibleOutcome:
             okd = True
+    elif rec["kind"] == "parity_history":
+        okd = case_parity_history(ctx, R, [tuple(q) for q in rec["qubits"]], [tuple(c) for c in rec["calls"]])
     elif rec["kind"] == "state_prep":
         _, okd = case_state_prep(ctx, R, rec["phi"], rec["theta"])
     else:
